@@ -217,10 +217,11 @@ pub fn run(args: &Args, prefix: &str) -> i32 {
                 vec![AcceptUni, AcceptUni],
             ];
             for (name, sc) in [("open-twice-bi", open_twice_bi), ("open-twice-uni", open_twice_uni), ("skip-ahead", skip_ahead)] {
-                for (sb, su) in if th { vec![(0u64, 0u64), (1, 1), (1, 0), (3, 3)] } else { vec![(1, 1), (3, 3)] } {
+                // unequal limits for the two kinds: a limit taken from the wrong kind is observable
+                for (sb, su) in if th { vec![(0u64, 0u64), (1, 1), (1, 0), (0, 2), (3, 3), (1, 3), (3, 1)] } else { vec![(1, 3), (3, 1)] } {
                     for demand in [false, true] {
                         // quick: the limit-1 searches are the large ones; keep one strategy each
-                        if !th && sb == 1 && (demand != (name == "skip-ahead")) {
+                        if !th && name == "open-twice-bi" && sb == 1 && demand {
                             continue;
                         }
                         let mut c = base_cfg(sc.clone(), 64);
